@@ -207,6 +207,8 @@ type hostileSetup struct {
 	sub    int // filters of a pending Subscribe, 0 for none
 	unsub  bool
 	ping   bool
+	// skipBig: the application does not read messages beyond the read buffer
+	skipBig bool
 }
 
 // validStream builds a well-formed stream for the setup.
@@ -405,7 +407,7 @@ func runHostile(c *run.Ctx, hs hostileSetup, input []byte, handshake bool, clean
 		d.Publish(2, false, 3)
 	}
 	d.MaxErrs = 6
-	d.BigRead = func(b *mqtt.BigMessage) bool { return b.Size <= 1<<20 }
+	d.BigRead = func(b *mqtt.BigMessage) bool { return !hs.skipBig && b.Size <= 1<<20 }
 	res := &hostileResult{}
 	// requests that wait for the first connect
 	if !handshake {
@@ -654,7 +656,7 @@ func init() {
 			return 320
 		},
 		ChunkSize:   10,
-		Rule:        "inputs come from four generators, each used as handshake reply and as post-handshake stream against clients with 0-3 at-least-once and 0-3 exactly-once transfers outstanding plus optional pending Subscribe, Unsubscribe and Ping: (directed) 47 hand-listed offences, one per violation the statement names, placed after a valid prefix of 0-6 packets; (mutation) every single-field mutation of a generated valid stream: each byte of each fixed header set to 0, +-1, 0xff, high bit flipped, identifiers set to zero, foreign space and neighbour, truncation at every byte (broker then stays silent); (soup) PRNG bytes and valid packets in PRNG order; (handshake) all 256 return codes and flag bytes, truncated and foreign first packets. A reference classifier written from the specification (over the model of what is outstanding) gives the first offending packet; gray-zone inputs (reserved flag bits on non-PUBLISH packets, topic contents, DUP on QoS 0) get only the unconditional monitors. Oracle: no panic (child-process monitor); packets before the offence take effect (returned messages, completed transfers equal the reference); at the offence ReadSlices errs, the connection is closed by the client and the next ReadSlices dials again; completions and record deletions need their in-order acknowledgement bytes in the input; a Read that blocks inside a packet must have a deadline armed (the connection expires it instead of waiting); bytes allocated stay below the largest announced packet + 8 MiB. Non-trivial: input with an offence reached by the parser; distinct by (generator, offence kind, outstanding state, handshake or stream).",
+		Rule:        "inputs come from four generators, each used as handshake reply and as post-handshake stream against clients with 0-3 at-least-once and 0-3 exactly-once transfers outstanding plus optional pending Subscribe, Unsubscribe and Ping: (directed) 47 hand-listed offences, one per violation the statement names, placed after a valid prefix of 0-6 packets, plus 9 stage-dependent ones (an acknowledgement that would be right one stage earlier or later, after a prefix that brings the transfers to that stage); (mutation) every single-field mutation of a generated valid stream: each byte of each fixed header set to 0, +-1, 0xff, high bit flipped, identifiers set to zero, foreign space and neighbour, truncation at every byte (broker then stays silent); (soup) PRNG bytes and valid packets in PRNG order; (handshake) all 256 return codes and flag bytes, truncated and foreign first packets. A reference classifier written from the specification (over the model of what is outstanding) gives the first offending packet; gray-zone inputs (reserved flag bits on non-PUBLISH packets, topic contents, DUP on QoS 0) get only the unconditional monitors. Oracle: no panic (child-process monitor); packets before the offence take effect (returned messages, completed transfers equal the reference); at the offence ReadSlices errs, the connection is closed by the client and the next ReadSlices dials again; completions and record deletions need their in-order acknowledgement bytes in the input; messages beyond the read buffer that stop short are read or skipped by the application; a Read that blocks inside a packet must have a deadline armed (the connection expires it instead of waiting); bytes allocated stay below the largest announced packet + 8 MiB. Non-trivial: input with an offence reached by the parser; distinct by (generator, offence kind, outstanding state, handshake or stream).",
 		Assumptions: []string{"native coverage-guided fuzzing and the asan pass are not part of this check (cut, see DESIGN section 6)", "BigMessage.ReadAll is never called on messages above 1 MiB"},
 		Run: func(c *run.Ctx) {
 			r := c.Rng
@@ -674,6 +676,43 @@ func init() {
 			}
 			switch c.Case % 4 {
 			case 0: // directed
+				if c.Case/4%4 == 1 {
+					// offences that depend on the stage of a transfer: the prefix brings
+					// the transfers to that stage, then the acknowledgement comes that
+					// would be right one stage earlier or later
+					ack := wire.Ack
+					for _, so := range []struct {
+						name    string
+						n1, n2  int
+						prefix  [][]byte
+						offence []byte
+					}{
+						{"PUBREC for the next identifier with the only transfer awaiting PUBCOMP", 0, 1, [][]byte{ack(wire.PUBREC, 0xc000)}, ack(wire.PUBREC, 0xc001)},
+						{"PUBREC repeated for a transfer awaiting PUBCOMP", 0, 2, [][]byte{ack(wire.PUBREC, 0xc000)}, ack(wire.PUBREC, 0xc000)},
+						{"PUBCOMP for a transfer still awaiting PUBREC, behind one awaiting PUBCOMP", 0, 2, [][]byte{ack(wire.PUBREC, 0xc000)}, ack(wire.PUBCOMP, 0xc001)},
+						{"PUBCOMP repeated", 0, 2, [][]byte{ack(wire.PUBREC, 0xc000), ack(wire.PUBREC, 0xc001), ack(wire.PUBCOMP, 0xc000)}, ack(wire.PUBCOMP, 0xc000)},
+						{"PUBREC after completion", 0, 1, [][]byte{ack(wire.PUBREC, 0xc000), ack(wire.PUBCOMP, 0xc000)}, ack(wire.PUBREC, 0xc000)},
+						{"PUBACK repeated", 2, 0, [][]byte{ack(wire.PUBACK, 0x8000)}, ack(wire.PUBACK, 0x8000)},
+						{"PUBACK for the one after next", 3, 0, [][]byte{ack(wire.PUBACK, 0x8000)}, ack(wire.PUBACK, 0x8002)},
+						{"PUBACK with an exactly-once identifier in line", 1, 1, nil, ack(wire.PUBACK, 0xc000)},
+						{"PUBCOMP with an at-least-once identifier in line", 1, 1, [][]byte{ack(wire.PUBREC, 0xc000)}, ack(wire.PUBCOMP, 0x8000)},
+					} {
+						st := hostileSetup{n1: so.n1, n2: so.n2}
+						var in []byte
+						for _, p := range so.prefix {
+							in = append(in, p...)
+							if r.Intn(2) == 0 {
+								in = append(in, wire.Pingresp()...)
+							}
+						}
+						in = append(in, so.offence...)
+						in = append(in, validStream(r, hostileSetup{}, 2)...)
+						save := hs
+						hs = st
+						try("stage: "+so.name, "stage|"+so.name, in, false, false)
+						hs = save
+					}
+				}
 				for i, dv := range directed {
 					if i%8 != (c.Case/4)%8 {
 						continue
@@ -742,15 +781,19 @@ func init() {
 					try("byte soup", "soup", in, i%4 == 0, false)
 				}
 			case 3: // handshake replies
-				if c.Case/4%4 == 0 {
+				if c.Case/4%2 == 0 {
 					// a message beyond the read buffer whose payload stops short: the
 					// application reads it (ReadAll) or skips it; the broker stays silent
 					mqtt.VerifSetReadBufSize(64)
 					for _, cut := range []int{70, 71, 100, 150, 259} {
-						big := wire.Publish("big", bytes.Repeat([]byte{7}, 200), byte(r.Intn(3)), 9, false, false)
-						in := append(validStream(r, hs, r.Intn(3)), big[:min(cut, len(big))]...)
-						try(fmt.Sprintf("BigMessage truncated after %d of %d bytes, broker silent", cut, len(big)), "big-truncated", in, false, false)
+						for _, skip := range []bool{false, true} {
+							hs.skipBig = skip
+							big := wire.Publish("big", bytes.Repeat([]byte{7}, 200), byte(r.Intn(3)), 9, false, false)
+							in := append(validStream(r, hs, r.Intn(3)), big[:min(cut, len(big))]...)
+							try(fmt.Sprintf("BigMessage truncated after %d of %d bytes (skipped by the application: %v), broker silent", cut, len(big), skip), fmt.Sprintf("big-truncated|skip=%v", skip), in, false, false)
+						}
 					}
+					hs.skipBig = false
 					mqtt.VerifSetReadBufSize(128 * 1024)
 				}
 				k := c.Case / 4
